@@ -45,6 +45,11 @@ S4 = {"flavor": "int", "kind": "intcountervec", "keys": ["a", "b"], "maxid": 4, 
       "scripts": {"t1": [W("a"), HI(0, 1), RM("a")], "t2": [W("a"), HI(0, 2), CO], "t3": [W("b"), HI(0, 4), CO]}}
 S5 = {"flavor": "f64", "kind": "countervec", "keys": ["a", "b"], "maxid": 5, "threads": ["t1", "t2", "t3"],
       "scripts": {"t1": [W("a"), HI(0, 1), RS, W("a", 1), HI(1, 8)], "t2": [W("a"), HI(0, 2), CO], "t3": [W("b"), HG(0), RM("b"), CO]}}
+# concurrent removers of one child: in any sequential order only one of them can succeed
+S6 = {"flavor": "int", "kind": "intcountervec", "keys": ["a"], "maxid": 3, "threads": ["t1", "t2"],
+      "scripts": {"t1": [W("a"), HI(0, 1), RM("a"), CO], "t2": [W("a"), RM("a"), HI(0, 2)]}}
+S7 = {"flavor": "int", "kind": "intcountervec", "keys": ["a", "b"], "maxid": 4, "threads": ["t1", "t2", "t3"],
+      "scripts": {"t1": [W("a"), RM("a")], "t2": [W("a"), RM("a"), CO], "t3": [W("a"), RM("a"), RS]}}
 INVS = "LockSafety OneChildPerKey FreshHandleIsCurrent IdsBounded"
 
 
@@ -129,7 +134,10 @@ def run(ctx):
         run_scenario(ctx, exe, S1, "S1", stats, samples, nrandom=100, kinds=["intcountervec"])
         run_scenario(ctx, exe, S2, "S2", stats, samples, nrandom=100, kinds=["intcountervec"])
         run_scenario(ctx, exe, S3, "S3", stats, samples, nrandom=100, kinds=["countervec"])
+        run_scenario(ctx, exe, S6, "S6", stats, samples, nrandom=300, kinds=["intcountervec"])
     else:
+        run_scenario(ctx, exe, S6, "S6", stats, samples, nrandom=3000, kinds=["intcountervec", "countervec"])
+        run_scenario(ctx, exe, S7, "S7", stats, samples, model=False, nrandom=10000, kinds=["intcountervec"])
         run_scenario(ctx, exe, S1, "S1", stats, samples, nrandom=2000, kinds=["intcountervec"])
         run_scenario(ctx, exe, S2, "S2", stats, samples, nrandom=2000, kinds=["intcountervec"])
         run_scenario(ctx, exe, S3, "S3", stats, samples, nrandom=2000, kinds=["countervec"])
